@@ -34,7 +34,7 @@ Print Assumptions C20_frame.
    created fields set (given non-nil package default handlers), and no shared-phase
    operation on initialised instances un-sets anything. *)
 Theorem C20_lazy_fields_established : forall i c k h o,
-  (exists sl opts, o = NewRPOIDC i sl opts) \/ (exists cfg opts, o = NewRPOAuth i cfg opts) ->
+  (exists sl t opts, o = NewRPOIDC i sl t opts) \/ (exists cfg opts, o = NewRPOAuth i cfg opts) ->
   h (LG GErrH) <> 0 -> h (LG GUnauthH) <> 0 ->
   inited (RPCall i c k) (apply o h) = true.
 Proof. exact inited_established. Qed.
@@ -62,10 +62,13 @@ Print Assumptions C20_drf.
 
 (* Isolation, schedule form: in ANY interleaving l of tagged operations, the result of
    a probe of group k after the whole interleaving equals its result after group k's
-   operations alone, provided the other groups write nothing group k touches ... *)
+   operations alone, provided the other groups write nothing that group k's writes and
+   results depend on ([deps]: sources of its writes and the locations its result reads).
+   Groups may be requests on ONE handler value / instance, or instances with identical
+   identifiers: creation and use order never matters. *)
 Theorem C20_isolation : forall (l : list (nat * op)) (k : nat) (probe : op) (h : heap),
   (forall t a b, In (k, a) ((k, probe) :: l) -> In (t, b) l -> t <> k ->
-     disjointL (writes b) (reads a ++ writes a)) ->
+     disjointL (writes b) (deps a)) ->
   result probe (run_ops (map snd l) h) = result probe (run_ops (of_tag k l) h).
 Proof. exact isolation_sched. Qed.
 Print Assumptions C20_isolation.
@@ -73,13 +76,18 @@ Print Assumptions C20_isolation.
 (* ... which holds as soon as the groups are about different instances / storages: they
    may share *http.Client objects, option slices, configs and all package defaults. *)
 Theorem C20_separate_instances_isolated : forall a b,
-  separate a b = true -> disjointL (writes b) (reads a ++ writes a).
-Proof. exact separate_disjoint. Qed.
+  separate a b = true -> disjointL (writes b) (reads a ++ writes a) /\ disjointL (writes b) (deps a).
+Proof. exact separate_isolated. Qed.
 Print Assumptions C20_separate_instances_isolated.
+
+(* a request served by a handler value answers with ITS OWN per-request data, whatever else ran *)
+Theorem C20_handler_requests_isolated : forall i c k r h, result (HandlerReq i c k r) h = [S r].
+Proof. exact handler_result. Qed.
+Print Assumptions C20_handler_requests_isolated.
 
 (* The property predicate evaluated by the correspondence run holds of the model on
    every input: every snapshot case (all heaps, all operations) and every interleaving
-   of groups on separate instances. *)
+   of groups none of which writes what another depends on ([wf], computed from the table). *)
 Theorem C20_spec_sound : forall i, wf i = true -> spec i (model i) = true.
 Proof. exact spec_sound. Qed.
 Print Assumptions C20_spec_sound.
